@@ -5,6 +5,7 @@ import (
 	"crypto/cipher"
 	"encoding/binary"
 	"encoding/hex"
+	"errors"
 	"fmt"
 	"io"
 	"path/filepath"
@@ -147,6 +148,7 @@ func NewEncryptedISO(f afero.File, data1 []byte, clearRegions bool) (*EncryptedI
 		regionsHeaderSize: sizeBytes(binary.Size(hdr) + binary.Size(unencryptedRegions)),
 		privateFile:       f,
 		encryptedRegions:  encryptedRegions,
+		cip:               cip,
 		cbcDec:            cipher.NewCBCDecrypter(cip, iv[:]).(cbcMode),
 		iv:                iv[:],
 	}, nil
@@ -156,25 +158,29 @@ func (e *EncryptedISO) Read(b []byte) (int, error) {
 	readStart := e.offset
 
 	read, err := e.privateFile.Read(b)
-	if err != nil || read == 0 {
+	if read == 0 {
 		return read, err
 	}
 
 	e.offset += sizeBytes(read)
+	if decryptErr := e.decryptData(readStart, b[:read], false); decryptErr != nil {
+		return 0, decryptErr
+	}
 	e.clearRegionsData(readStart, b[:read])
-	e.decryptData(readStart, b[:read], false)
-	return read, nil
+	return read, err
 }
 
 func (e *EncryptedISO) ReadAt(b []byte, off int64) (int, error) {
 	read, err := e.privateFile.ReadAt(b, off)
-	if err != nil || read == 0 {
+	if read == 0 {
 		return read, err
 	}
 
+	if decryptErr := e.decryptData(sizeBytes(off), b[:read], true); decryptErr != nil {
+		return 0, decryptErr
+	}
 	e.clearRegionsData(sizeBytes(off), b[:read])
-	e.decryptData(sizeBytes(off), b[:read], true)
-	return read, nil
+	return read, err
 }
 
 func (e *EncryptedISO) Seek(offset int64, whence int) (int64, error) {
@@ -197,20 +203,42 @@ func (e *EncryptedISO) clearRegionsData(start sizeBytes, data []byte) {
 	}
 }
 
-func (e *EncryptedISO) decryptData(start sizeBytes, data []byte, cloneCBC bool) {
+// decryptData decrypts encrypted sectors covered by data that was read from position start.
+// Read may start or end in the middle of sector (or underlying file may return less data than requested),
+// but sector can be decrypted only as a whole, so such sectors are additionally read from underlying file.
+func (e *EncryptedISO) decryptData(start sizeBytes, data []byte, cloneCBC bool) error {
 	end := start + sizeBytes(len(data))
 	for _, region := range e.encryptedRegions {
-		if region.end <= start.sectors() || region.start > end.sectors() { // not covered
+		if region.end.bytes() <= start || region.start.bytes() >= end { // not covered
 			continue
 		}
 
 		startSector := max(region.start, start.floorSectors())
 		endSector := min(region.end, end.sectors())
 		for i := startSector; i < endSector; i++ {
-			encryptedSpan := data[i.bytes()-start : i.next().bytes()-start]
-			e.setIVForSector(i, cloneCBC).CryptBlocks(encryptedSpan, encryptedSpan)
+			sectorStart, sectorEnd := i.bytes(), i.next().bytes()
+			if sectorStart >= start && sectorEnd <= end { // sector is fully covered
+				encryptedSpan := data[sectorStart-start : sectorEnd-start]
+				e.setIVForSector(i, cloneCBC).CryptBlocks(encryptedSpan, encryptedSpan)
+				continue
+			}
+
+			var sector [sectorSize]byte
+
+			n, err := e.privateFile.ReadAt(sector[:], int64(sectorStart))
+			if err != nil && (!errors.Is(err, io.EOF) || n == 0) {
+				return fmt.Errorf("read sector %d to decrypt failed: %w", i, err)
+			}
+
+			n -= n % aes.BlockSize
+			e.setIVForSector(i, cloneCBC).CryptBlocks(sector[:n], sector[:n])
+
+			from, to := max(sectorStart, start), min(sectorEnd, end)
+			copy(data[from-start:to-start], sector[from-sectorStart:to-sectorStart])
 		}
 	}
+
+	return nil
 }
 
 func (*EncryptedISO) Write([]byte) (int, error) { return 0, syscall.EPERM }
